@@ -416,6 +416,11 @@ PROPS = {
     "C12": {
         "level": "other",
         "units": ["nameorder"],
+        "vx_search": {"bin": "c12_search_sign_verify", "crate": "replay_sign", "release": True,
+                      "what": "A and MX RRsets under ordinary, wildcard and interior-asterisk owners signed with fresh Ed25519 and ECDSA P-256 keys "
+                              "(ring): the RRSIG carries the RFC 4034 3.1.3 label count and verifies over the data RrsigExt::signed_data "
+                              "reconstructs -- reordered, TTL decremented, owner and RDATA names in another case, as wildcard expansions with "
+                              "upper case in the replaced and in the kept part -- and does not verify changed data; on the real crate"},
         "kani": [
             {"group": "g0", "name": "c12_key_tag_matches_rfc4034_bounded", "kind": "bounded", "tier": "quick",
              "bound": "public keys of 0..=12 octets, all flags/protocol/algorithm values except RSAMD5, all key contents",
